@@ -327,6 +327,46 @@ class Check:
                 results.update(res)
         return doc, results
 
+    def stage_race(self):
+        """The same harness built with Go's race detector, run on a smaller number of cases of this
+        property: a data race in the gateway (a value still written by the collector while a step or
+        a logger reads it, a plan shared by two requests, the cache's maps) is reported with the
+        detector's report as the failing run.  Nothing is evaluated in Coq here."""
+        if self.prop not in RACE_PROPS or self.replay:
+            return
+        src = os.path.join(VERIF, "harness")
+        exe = os.path.join(self.workdir, "gwharness-race")
+        env = dict(GOENV, CGO_ENABLED="1")
+        rc, out = run(["go", "build", "-race", "-tags", "verif", "-modfile", os.path.join(self.workdir, "go.mod"), "-o", exe, "."],
+                      cwd=src, env=env, timeout=1800)
+        if rc != 0:
+            self.notes.append("race stage skipped: go build -race is not available here (%s)" % out.strip().split("\n")[-1][:200])
+            self.cov["race_stage"] = {"available": False}
+            return
+        n = 400 if self.tier == "thorough" else 60
+        outdir = os.path.join(self.workdir, "race")
+        cmd = [exe, self.prop, "-seed", str(self.seed + 104729), "-tier", "quick", "-out", outdir, "-n", str(n)]
+        rc, out = run(cmd, cwd=self.workdir, env=dict(env, GORACE="halt_on_error=0"), timeout=3000)
+        races = out.count("WARNING: DATA RACE")
+        self.cov["race_stage"] = {"available": True, "cases": n, "data_races_reported": races,
+                                  "cmd": "go build -race -tags verif ./harness && gwharness-race %s -seed %d -n %d" % (self.prop, self.seed + 104729, n)}
+        if races:
+            i = out.find("WARNING: DATA RACE")
+            case = {"id": -2, "kind": "race-detector run", "nontrivial": True,
+                    "input": {"cmd": " ".join(cmd[1:]), "note": "rebuild the harness with `go build -race -tags verif` and run it with these arguments"},
+                    "observed": {"data_races": races, "first_report": out[i:i + 3500]}}
+            self.violations.append((case, "the race detector reports a data race inside the gateway while it serves this property's cases"))
+        elif rc != 0:
+            crumb = os.path.join(outdir, "current_case.json")
+            cur = None
+            try:
+                cur = json.load(open(crumb))
+            except Exception:
+                pass
+            case = {"id": -2, "kind": "race-detector run", "nontrivial": True,
+                    "input": (cur or {}).get("input", {"cmd": " ".join(cmd[1:])}), "observed": {"process_died": out[-1500:]}}
+            self.violations.append((case, "the process running the gateway died under the race-detector build"))
+
     def classify(self, doc, results, known):
         known_by_guard = {}
         for k in known:
@@ -427,6 +467,8 @@ class Check:
 RULES = {}
 ASSUMPTIONS = {}
 EXTRA_STAGES = {}
+# properties whose cases run goroutines of the gateway concurrently (executor, collector, cache, batches)
+RACE_PROPS = {"C05", "C06", "C07", "C11", "C12", "C13", "C16"}
 
 
 def generic_main(prop, tier, seed, replay):
@@ -438,6 +480,7 @@ def generic_main(prop, tier, seed, replay):
     for stage in EXTRA_STAGES.get(prop, {}).get("pre", []):
         stage(chk)
     r = chk.stage_harness()
+    chk.stage_race()
     if r:
         doc, results = r
         chk.classify(doc, results, known)
